@@ -50,6 +50,7 @@ type frame struct {
 	panicking        bool
 	panic            interface{}
 	phitemps         []value
+	predOcc          int // which occurrence of prevBlock among block.Preds the taken edge is
 	depth            int
 	lenient          bool // package initialiser: unsupported callees yield zero values
 }
@@ -275,9 +276,15 @@ func visitInstr(fr *frame, instr ssa.Instruction) continuation {
 		if truth(fr.get(instr.Cond), fr.fn.String()) {
 			succ = 0
 		}
+		// an If may have the same block as both successors (with different phi edges)
+		fr.predOcc = 0
+		if succ == 1 && fr.block.Succs[0] == fr.block.Succs[1] {
+			fr.predOcc = 1
+		}
 		fr.prevBlock, fr.block = fr.block, fr.block.Succs[succ]
 		return kJump
 	case *ssa.Jump:
+		fr.predOcc = 0
 		fr.prevBlock, fr.block = fr.block, fr.block.Succs[0]
 		return kJump
 	case *ssa.Defer:
@@ -324,7 +331,7 @@ func visitInstr(fr *frame, instr ssa.Instruction) continuation {
 		}
 		fr.env[instr] = &(*p).(structure)[instr.Field]
 	case *ssa.Field:
-		fr.env[instr] = fr.get(instr.X).(structure)[instr.Field]
+		fr.env[instr] = copyVal(fr.get(instr.X).(structure)[instr.Field])
 	case *ssa.IndexAddr:
 		x := fr.get(instr.X)
 		idx := fr.get(instr.Index)
@@ -345,7 +352,7 @@ func visitInstr(fr *frame, instr ssa.Instruction) continuation {
 		idx := fr.get(instr.Index)
 		switch x := x.(type) {
 		case array:
-			fr.env[instr] = x[checkIndex(idx, len(x), "array")]
+			fr.env[instr] = copyVal(x[checkIndex(idx, len(x), "array")])
 		case string:
 			fr.env[instr] = x[checkIndex(idx, len(x), "string")]
 		case symstr:
@@ -363,7 +370,7 @@ func visitInstr(fr *frame, instr ssa.Instruction) continuation {
 		if m == nil {
 			panic(targetPanic{iface{I.runtimeErrorString, "assignment to entry in nil map"}})
 		}
-		m.insert(fr.get(instr.Key), fr.get(instr.Value))
+		m.insert(copyVal(fr.get(instr.Key)), copyVal(fr.get(instr.Value)))
 	case *ssa.TypeAssert:
 		fr.env[instr] = typeAssert(instr, fr.get(instr.X).(iface))
 	case *ssa.MakeClosure:
@@ -577,7 +584,20 @@ func executePhis(fr *frame) []ssa.Instruction {
 	nonPhis := fr.block.Instrs[firstNonPhi:]
 	if firstNonPhi > 0 {
 		phis := fr.block.Instrs[:firstNonPhi]
-		predIndex := slices.Index(fr.block.Preds, fr.prevBlock)
+		predIndex := -1
+		occ := fr.predOcc
+		for i, p := range fr.block.Preds {
+			if p == fr.prevBlock {
+				if occ == 0 {
+					predIndex = i
+					break
+				}
+				occ--
+			}
+		}
+		if predIndex < 0 {
+			predIndex = slices.Index(fr.block.Preds, fr.prevBlock)
+		}
 		fr.phitemps = fr.phitemps[:0]
 		for _, phi := range phis {
 			phi := phi.(*ssa.Phi)
